@@ -217,6 +217,27 @@ MUSIC = {
         'Definition music_empty : list Z := [%s].\n' % '; '.join(str(b) for b in mod.Music.empty(version=8)._data)),
 }
 
+
+# ----------------------------------------------------------------------------- lua.py: P8SCII tables
+def _zl(xs):
+    return '[' + '; '.join(str(int(x)) for x in xs) + ']'
+
+
+def p8scii_extra(mod, tree, src):
+    cs = mod.P8SCII_CHARSET
+    rows = ';\n   '.join('(%d, %s)' % (c.p8scii, _zl(ord(ch) for ch in c.p8string)) for c in cs)
+    u2p = ';\n   '.join('(%s, %d)' % (_zl(ord(ch) for ch in k), v) for k, v in mod.UNICODE_TO_P8SCII.items())
+    wid = ';\n   '.join('(%d, %d)' % (ord(k), v) for k, v in mod.UNICODE_CHAR_WIDTHS.items())
+    return ('(* P8SCII_CHARSET in list order: (p8scii field, code points of p8string) *)\n'
+            'Definition p8scii_charset : list (Z * list Z) :=\n  [%s].\n\n' % rows +
+            '(* runtime value of UNICODE_TO_P8SCII, in dict order (keys are unique) *)\n'
+            'Definition u2p_items : list (list Z * Z) :=\n  [%s].\n\n' % u2p +
+            '(* runtime value of UNICODE_CHAR_WIDTHS *)\n'
+            'Definition width_items : list (Z * Z) :=\n  [%s].\n' % wid)
+
+
+P8SCII = {'file': 'T_p8scii', 'kernels': [], 'extra': p8scii_extra}
+
 MODULES = [
     ('pico8.game.game', 'pico8/game/game.py', GAME),
     ('pico8.gfx.gfx', 'pico8/gfx/gfx.py', GFX),
@@ -224,4 +245,5 @@ MODULES = [
     ('pico8.map.map', 'pico8/map/map.py', MAP),
     ('pico8.sfx.sfx', 'pico8/sfx/sfx.py', SFX),
     ('pico8.music.music', 'pico8/music/music.py', MUSIC),
+    ('pico8.lua.lua', 'pico8/lua/lua.py', P8SCII),
 ]
